@@ -210,9 +210,12 @@ def check_term_value(rule, db, cfgname, cls, sign_num, bosonic):
         raise AnalysisBroken("%s::Term::operator()(tau,beta): expected one return" % cls)
     rk = ctx2.key(t2.nodes[rets[0]]["sub"])
     site = cls + "::Term::operator()(tau,beta)"
-    if rk[0] != "cond":
-        raise AnalysisBroken("%s: the imaginary-time value is not a two-branch conditional on the sign of the pole" % site)
-    c, e1, e2 = rk[1], F2.conv(rk[2]), F2.conv(rk[3])
+    single = rk[0] != "cond"
+    if single:
+        # one closed form for both signs of the pole: it must be the inverse transform AND overflow-safe for P > 0 and P < 0
+        c, e1, e2 = None, F2.conv(rk), F2.conv(rk)
+    else:
+        c, e1, e2 = rk[1], F2.conv(rk[2]), F2.conv(rk[3])
     # fermionic:  -R e^{-tau P} / (1 + e^{-beta P});   bosonic:  R e^{-tau P} / (1 - e^{-beta P})
     if bosonic:
         want = R * sp.exp(-tau * P) / (1 - sp.exp(-beta * P))
@@ -229,16 +232,19 @@ def check_term_value(rule, db, cfgname, cls, sign_num, bosonic):
     # overflow mechanism: every exp argument is <= 0 in the branch it is used in (0 <= tau <= beta)
     site = cls + "::Term::operator()(tau,beta):no-overflow"
     # condition: P > 0  (or P >= 0 / P < 0 ...): determine sign of P in each branch
-    if not (c[0] == "op" and c[1] in (">", ">=", "<", "<=") and {c[2], c[3]} == {fld(cls + "::Term::Pole"), ("lit", 0)}):
-        raise AnalysisBroken("%s: branch condition is not a sign test of the pole" % site)
-    op = c[1]
-    if c[3] == fld(cls + "::Term::Pole"):      # 0 op P  ->  P op' 0
-        op = {">": "<", "<": ">", ">=": "<=", "<=": ">="}[op]
-    first = {">": "+", ">=": "0+", "<": "-", "<=": "0-"}[op]
-    second = {">": "0-", ">=": "-", "<": "0+", "<=": "+"}[op]
+    if single:
+        first, second = "+", "-"
+    else:
+        if not (c[0] == "op" and c[1] in (">", ">=", "<", "<=") and {c[2], c[3]} == {fld(cls + "::Term::Pole"), ("lit", 0)}):
+            raise AnalysisBroken("%s: branch condition is not a sign test of the pole" % site)
+        op = c[1]
+        if c[3] == fld(cls + "::Term::Pole"):      # 0 op P  ->  P op' 0
+            op = {">": "<", "<": ">", ">=": "<=", "<=": ">="}[op]
+        first = {">": "+", ">=": "0+", "<": "-", "<=": "0-"}[op]
+        second = {">": "0-", ">=": "-", "<": "0+", "<=": "+"}[op]
     d = sp.Symbol("d", real=True)        # beta - tau >= 0
     probs = []
-    for nm, e, psign in (("first", e1, first), ("second", e2, second)):
+    for nm, e, psign in ((("the single closed form for P > 0" if single else "first"), e1, first), (("the single closed form for P < 0" if single else "second"), e2, second)):
         for arg in exp_args(e):
             arg2 = sp.expand(arg.subs(beta, tau + d))
             r = nonpositive(arg2, {tau: "0+", d: "0+", P: psign})
